@@ -15,6 +15,10 @@ CLAIMED = {
         "(1) Every operation history up to the bound (all sequences over set/read/mark/freeze/unfreeze/func=/replace/replace_child/element assignment on 7 graph shapes built from the real node classes and the Nexus API) is executed with symbolic leaf values and each read is proved equal to an independent from-scratch evaluator; call counters check 'at most once per read' and 'only if an input was assigned'; cycle-closing dependencies must raise and leave the graph usable. (2) Inductive step: from an ARBITRARY cache state (symbolic _stale/_frozen/_value satisfying the invariant) one real operation preserves the invariant and reads equal the from-scratch value, which extends (1) to histories of any length on those shapes.",
         "Trusted: symx, z3, the recursive oracle evaluator, the invariant in props/C04.py (checked to hold after construction). Outside: GC of weakly referenced parents, larger graphs, side-effecting node functions, freeze of a stale node.",
         "DESIGN.md 4/C04", "bounded symbolic histories + inductive invariant step on the real nexus classes (vx.symx + z3)"),
+    "C16": (
+        "The real ConfidenceLevel class and MinimizerBase._get_arrow_specs are executed with symbolic sigma / CL / costs over uninterpreted regularised-incomplete-gamma functions Q, Qinv (axioms: mutual inverses, range, strict monotonicity, Q(1,x)=exp(-x)): cl(sigma) == 1-Q(n/2, sigma^2/2) (= chi2 CDF at sigma^2 by definition), sigma(cl(sigma)) == sigma, cl(sigma(cl)) == cl, strict monotonicity, delta_nll == sigma^2, setter/constructor validation and state after rejection, central vs one-sided arrow confidence levels and target costs -- for all values, n in 1..4 (1..6 thorough). Sensitivity twins (wrong dof, sigma not squared) are refuted. Numeric values (68.27 % ...) are a concrete sub-check only.",
+        "Trusted: symx, z3, the Q/Qinv axioms (stand in for SciPy's special functions, which are FFI). Outside: numeric accuracy of scipy.special.",
+        "DESIGN.md 4/C16", "symbolic execution of the real class over uninterpreted special functions with eagerly instantiated axioms + SMT"),
 }
 _NYB = "check not built yet in this round (design in DESIGN.md section 4); no claim is made"
-NA = {p: _NYB for p in ["C01","C03","C05","C06","C07","C08","C09","C10","C11","C14","C15","C16","C17","C18","C19"]}
+NA = {p: _NYB for p in ["C01","C03","C05","C06","C07","C08","C09","C10","C11","C14","C15","C17","C18","C19"]}
